@@ -540,8 +540,11 @@ impl AsmParser {
                 }
                 TokenKind::Lit(_) => {
                     let val = self.expect_lit(Bits::Signed(bits))?;
-                    // `val` is a two's complement offset, so wrap
-                    let label = Label::Ref(self.line.wrapping_add(1).wrapping_add(val));
+                    // `val` is a two's complement offset from the following line
+                    let label = match u16::try_from(self.line as i32 + 1 + val as i16 as i32) {
+                        Ok(line) => Label::Ref(line),
+                        Err(_) => Label::Offset(val as i16),
+                    };
                     Ok(label)
                 }
                 _ => {
